@@ -642,4 +642,180 @@ theorem wd_dropChildren (g : Graph) (next w v : Nat) (l : List (Nat × List Stri
   | nil => rfl
   | cons a r ih => simp only [List.foldl_cons]; rw [ih]; rfl
 
+/-! ## the run decision taken twice (`traverse_node` decides, then the loop asks `should_run` again) -/
+
+theorem mem_dedup (l : List Nat) (a : Nat) : a ∈ dedupNat l ↔ a ∈ l := by
+  induction l with
+  | nil => simp [dedupNat]
+  | cons b r ih =>
+    unfold dedupNat
+    split
+    · rename_i hc
+      have hb : b ∈ r := by simpa using hc
+      rw [ih]
+      constructor
+      · intro h; exact List.mem_cons_of_mem _ h
+      · intro h
+        rcases List.mem_cons.mp h with h | h
+        · rw [h]; exact hb
+        · exact h
+    · simp only [List.mem_cons, ih]
+
+/-- the worker `should_rerun` filters the results for -/
+def effSt (o : Option Nat) (w : Nat) : Option Nat :=
+  match o with
+  | some v => some v
+  | none => some w
+
+theorem sharedFiltered_congr (g : Graph) (s s' : State) (n : Nat) (sw : Option Nat)
+    (h : ∀ m, (s'.nd m).results = (s.nd m).results) : sharedFilteredResults g s' n sw = sharedFilteredResults g s n sw := by
+  unfold sharedFilteredResults
+  rw [sharedResults_congr g s s' n h]
+
+theorem shouldRerun_congr (g : Graph) (s s' : State) (n w : Nat)
+    (hd : (s'.nd n).rerunDisabled = (s.nd n).rerunDisabled)
+    (hres : ∀ m, (s'.nd m).results = (s.nd m).results)
+    (hst : effSt (s'.nd n).started w = effSt (s.nd n).started w) :
+    shouldRerun g s' n w = shouldRerun g s n w := by
+  unfold shouldRerun
+  rw [sharedResults_congr g s s' n hres, hd]
+  have hf : ∀ sw, sharedFilteredResults g s' n sw = sharedFilteredResults g s n sw :=
+    fun sw => sharedFiltered_congr g s s' n sw hres
+  cases h1 : (s'.nd n).started <;> cases h2 : (s.nd n).started <;> simp only [h1, h2, effSt] at hst ⊢ <;>
+    simp only [hf]
+  all_goals first
+    | rfl
+    | (cases hst; rfl)
+
+theorem shouldRerun_disabled (g : Graph) (s : State) (n w : Nat) (h : (s.nd n).rerunDisabled = true) :
+    shouldRerun g s n w = .ok false := by
+  unfold shouldRerun
+  simp only [h, if_true]
+
+theorem isFinished_of_finished (g : Graph) (s : State) (n w : Nat) (hf : (s.nd n).finished = some w) :
+    isFinished g s n w 1 = true := by
+  unfold isFinished
+  split
+  · rfl
+  · rename_i hflat
+    have hmem : w ∈ sharedFinished g s n := by
+      unfold sharedFinished
+      rw [mem_dedup, List.mem_filterMap]
+      refine ⟨n, ?_, hf⟩
+      unfold Graph.copies
+      simp only [hflat, Bool.false_eq_true, if_false]
+      exact List.mem_cons_self
+    unfold scopeCount
+    cases (g.node n).shape with
+    | own => simp only [List.contains_iff_mem]; exact hmem
+    | swarm =>
+      simp only
+      have h1 : ((1 : Int) == -1) = false := by decide
+      simp only [h1, Bool.false_eq_true, if_false, decide_eq_true_eq]
+      have : w ∈ (sharedFinished g s n).filter (fun v => (g.worker v).swarm == (g.worker w).swarm) :=
+        List.mem_filter.mpr ⟨hmem, by simp⟩
+      have := List.length_pos_of_mem this
+      omega
+    | global =>
+      simp only
+      have h1 : ((1 : Int) == -1) = false := by decide
+      simp only [h1, Bool.false_eq_true, if_false, decide_eq_true_eq]
+      have := List.length_pos_of_mem hmem
+      omega
+
+theorem results_finishTraverse (s : State) (n w m : Nat) : ((finishTraverse s n w).nd m).results = (s.nd m).results :=
+  nd_setNd_proj (·.results) s n (fun d => { d with finished := some w, started := none }) (fun _ => rfl) m
+
+theorem disabled_finishTraverse (s : State) (n w m : Nat) :
+    ((finishTraverse s n w).nd m).rerunDisabled = (s.nd m).rerunDisabled :=
+  nd_setNd_proj (·.rerunDisabled) s n (fun d => { d with finished := some w, started := none }) (fun _ => rfl) m
+
+theorem started_finishTraverse (s : State) (n w : Nat) (hn : n < s.nodes.length) :
+    ((finishTraverse s n w).nd n).started = none ∧ ((finishTraverse s n w).nd n).finished = some w := by
+  unfold finishTraverse
+  rw [nd_setNd_eq s n _ hn]
+  exact ⟨rfl, rfl⟩
+
+/-- the second decision about a copy that was entered and not run is negative again -/
+theorem runDecision_again (g : Graph) (sa : State) (n w : Nat) (hn : n < sa.nodes.length)
+    (hst : (sa.nd n).started = some w) (s1 : State) (evs : List Event)
+    (h : runDecision g sa n w = .ok (false, s1, evs)) :
+    ∃ s2 evs2, runDecision g (finishTraverse s1 n w) n w = .ok (false, s2, evs2) := by
+  have hfr := fr_runDecision g sa n w false s1 evs h
+  have hn1 : n < s1.nodes.length := by rw [hfr.nodesLen]; exact hn
+  obtain ⟨hsF, hfF⟩ := started_finishTraverse s1 n w hn1
+  unfold runDecision at h ⊢
+  dsimp only at h ⊢
+  cases c1 : (g.node n).sharedRoot <;> cases c2 : (g.node n).dryRun <;> cases c3 : (g.node n).flat <;>
+    cases c4 : (g.node n).cloneSource <;> cases c5 : g.idIn w n <;> cases c6 : (g.node n).sets.isEmpty
+  all_goals simp only [c1, c2, c3, c4, c5, c6, Bool.false_eq_true, if_false, if_true, Bool.not_false, Bool.not_true,
+    reduceCtorEq] at h ⊢
+  all_goals first
+    | exact ⟨_, _, rfl⟩
+    | skip
+  · -- stateful
+    unfold runDecisionStateful runDecisionStatefulCore at h
+    have hfin : isFinished g (finishTraverse s1 n w) n w 1 = true := isFinished_of_finished g _ n w hfF
+    unfold runDecisionStateful runDecisionStatefulCore
+    simp only [hfin, Bool.not_true, Bool.false_and, Bool.false_eq_true, if_false, Bool.not_false, Bool.and_true]
+    -- the first decision
+    by_cases hx : ((!isFinished g sa n w 1) && (if (!isFinished g sa n w 1) = true then scanStates g sa n w else (false, [])).1) = true
+    · simp only [hx, if_true, Except.ok.injEq, Prod.mk.injEq, reduceCtorEq, false_and] at h
+    · simp only [hx, Bool.false_eq_true, if_false] at h
+      -- the second decision
+      by_cases hD2 : (sharedFilteredResults g (finishTraverse s1 n w) n ((finishTraverse s1 n w).nd n).started).isEmpty = true
+      · simp only [hD2, if_true]
+        rw [shouldRerun_disabled]
+        · exact ⟨_, _, rfl⟩
+        · unfold disableRerun
+          rw [nd_setNd_eq _ n _ (by unfold finishTraverse; rw [nodes_length_setNd]; exact hn1)]
+      · simp only [hD2, Bool.false_eq_true, if_false]
+        by_cases hD1 : ((sharedFilteredResults g sa n (sa.nd n).started).isEmpty &&
+            !(if (!isFinished g sa n w 1) = true then scanStates g sa n w else (false, [])).1) = true
+        · simp only [hD1, if_true] at h
+          cases hr : shouldRerun g (disableRerun sa n) n w with
+          | error e => simp [hr, Except.map] at h
+          | ok r =>
+            simp only [hr, Except.map, Except.ok.injEq, Prod.mk.injEq] at h
+            rw [shouldRerun_disabled]
+            · exact ⟨_, _, rfl⟩
+            · rw [disabled_finishTraverse, ← h.2.1]
+              unfold disableRerun
+              rw [nd_setNd_eq _ n _ hn]
+        · simp only [hD1, Bool.false_eq_true, if_false] at h
+          cases hr : shouldRerun g sa n w with
+          | error e => simp [hr, Except.map] at h
+          | ok r =>
+            simp only [hr, Except.map, Except.ok.injEq, Prod.mk.injEq] at h
+            have hs1 : s1 = sa := h.2.1.symm
+            have hcong : shouldRerun g (finishTraverse s1 n w) n w = shouldRerun g sa n w := by
+              apply shouldRerun_congr
+              · rw [disabled_finishTraverse, hs1]
+              · intro m; rw [results_finishTraverse, hs1]
+              · rw [hsF, hst]; rfl
+            rw [hcong, hr, ← h.1]
+            exact ⟨_, _, rfl⟩
+  · -- stateless
+    have hs1 : s1 = sa := runDecisionStateless_state g sa n w false s1 evs h
+    unfold runDecisionStateless at h ⊢
+    have hres : sharedResults g (finishTraverse s1 n w) n = sharedResults g sa n := by
+      apply sharedResults_congr
+      intro m; rw [results_finishTraverse, hs1]
+    rw [hres]
+    by_cases he : (sharedResults g sa n).isEmpty = true
+    · simp only [he, if_true, Except.ok.injEq, Prod.mk.injEq, reduceCtorEq, false_and] at h
+    · simp only [he, Bool.false_eq_true, if_false] at h ⊢
+      have hcong : shouldRerun g (finishTraverse s1 n w) n w = shouldRerun g sa n w := by
+        apply shouldRerun_congr
+        · rw [disabled_finishTraverse, hs1]
+        · intro m; rw [results_finishTraverse, hs1]
+        · rw [hsF, hst]; rfl
+      rw [hcong]
+      cases hr : shouldRerun g sa n w with
+      | error e => simp [hr, Except.map] at h
+      | ok r =>
+        simp only [hr, Except.map, Except.ok.injEq, Prod.mk.injEq] at h
+        rw [← h.1]
+        exact ⟨_, _, rfl⟩
+
 end I2N.Trav.Term
